@@ -18,6 +18,8 @@
 EXTENDS Naturals, Sequences, FiniteSets, TLC, Json, SequencesExt
 
 CONSTANTS MCPrec, Handles, MCBuild, EmitEdges,
+          EmitOneIn,      \* >= 1: emit a random 1 in EmitOneIn of the transitions (the largest instance is model-checked in
+                          \* full, but only a sample of its transitions is replayed on the implementation)
           Lite,           \* TRUE: the reduced alphabet (one parameter per solution named, values v1 and the marker, vectors
                           \* of length 0..1) -- used for the multi-handle / two-precision instances of the quick tier
           TestDefaultOn   \* include masa_test_default (it always terminates the process: one more walk per state)
@@ -128,6 +130,7 @@ View == <<reg, sel, live, status>>
 \* one JSON line per transition, for the replay harness
 EmitEdge ==
   \/ ~EmitEdges
+  \/ EmitOneIn > 1 /\ RandomElement(1..EmitOneIn) # 1
   \/ PrintT(<<"EDGE", ToJson([from |-> [reg |-> reg, sel |-> sel, status |-> status],
                               act  |-> act',
                               to   |-> [reg |-> reg', sel |-> sel', status |-> status']])>>)
